@@ -452,48 +452,61 @@ def run(ctx):
     rng = ctx.rng
     q = ctx.quick
     idx = 0
-    # ---- cheap part: serial reproducibility, serial executor, thread pools
-    for _ in range(6 if q else 40):
+    # ---- cheap part: serial reproducibility, serial executor, thread pools.  The quick-tier amounts always run; whatever the
+    # thorough tier adds is trimmed by the soft budget (a loaded machine must not turn it into a timeout).
+    def go(j, minimum):
+        return j < minimum or ctx.more()
+
+    for j in range(6 if q else 40):
+        if not go(j, 6):
+            break
         ctx.case_index = idx = idx + 1
         serial_repro_case(ctx, qp, rng)
-    for _ in range(3 if q else 12):
+    for j in range(3 if q else 12):
+        if not go(j, 3):
+            break
         ctx.case_index = idx = idx + 1
         parallel_case(ctx, qp, W, EX, rng, spool, "serial", 1, int(rng.integers(2, 10)), 5, R=2, scale=0.0, idx=idx)
     thread_workers = [1, 2, 3, 4, 8]
     nthread = 10 if q else 80
     for j in range(nthread):
-        if j >= nthread // 2 and not ctx.more():
+        if not go(j, 5):
             break
         ctx.case_index = idx = idx + 1
         w = thread_workers[(j + ctx.shard) % len(thread_workers)]
         parallel_case(ctx, qp, W, EX, rng, spool, "cf_threadpool", w, int(rng.integers(2, 25 if not q else 17)), 7 if q else 9,
                       R=3, scale=0.02, jitter=(j % 5 != 4), idx=idx)
     for j in range(2 if q else 10):
+        if not go(j, 2):
+            break
         ctx.case_index = idx = idx + 1
         derivs_case(ctx, qp, EX, rng, "cf_threadpool", thread_workers[(j + ctx.shard) % 5])
     ctx.case_index = idx = idx + 1
     derivs_case(ctx, qp, EX, rng, "serial", 1)
-    # ---- expensive part: spawn pools (every execute() creates a pool whose workers import pennylane)
+    # ---- expensive part: spawn pools whose workers import pennylane
     proc_plan = [("cf_procpool", 2), ("mp_pool", 3), ("cf_procpool", 3), ("mp_pool", 2), ("cf_procpool", 4), ("mp_pool", 4),
                  ("cf_procpool", 8), ("mp_pool", 8)]
     try:
-        if q:
-            # one pool per shard (4 per run: cf_procpool w2/w3, mp_pool w3/w2, rotated by the seed), reused by 3 executions
-            backend, w = proc_plan[(ctx.shard + ctx.seed) % 4]
-            ctx.case_index = idx = idx + 1
-            parallel_case(ctx, qp, W, EX, rng, spool, backend, w, int(rng.integers(6, 13)), 6, R=3, scale=0.2, idx=idx)
-            ctx.case_index = idx = idx + 1
-            derivs_case(ctx, qp, EX, rng, backend, w)
-        else:
+        # one pool per shard always (cf_procpool w2/w3, mp_pool w3/w2, rotated by shard and seed), reused by 3 executions
+        backend, w = proc_plan[(ctx.shard + ctx.seed) % 4]
+        ctx.case_index = idx = idx + 1
+        parallel_case(ctx, qp, W, EX, rng, spool, backend, w, int(rng.integers(6, 13)), 6, R=3, scale=0.2, idx=idx)
+        ctx.case_index = idx = idx + 1
+        derivs_case(ctx, qp, EX, rng, backend, w)
+        if not q:
+            close_pools()
             for j in range(3):
-                backend, w = proc_plan[(3 * ctx.shard + j + ctx.seed) % len(proc_plan)]
+                if not ctx.more():
+                    break
+                backend, w = proc_plan[4 + (ctx.shard + j + ctx.seed) % 4] if j == 0 else proc_plan[(3 * ctx.shard + j + ctx.seed) % len(proc_plan)]
                 for rep in range(3):
-                    if (j or rep) and not ctx.more():
+                    if rep and not ctx.more():
                         break
                     ctx.case_index = idx = idx + 1
                     parallel_case(ctx, qp, W, EX, rng, spool, backend, w, int(rng.integers(6, 25)), 8, R=3, scale=0.2, idx=idx)
-                ctx.case_index = idx = idx + 1
-                derivs_case(ctx, qp, EX, rng, backend, w)
+                if ctx.more():
+                    ctx.case_index = idx = idx + 1
+                    derivs_case(ctx, qp, EX, rng, backend, w)
                 close_pools()
             if ctx.more():  # the unmodified classes: a fresh spawn pool per execute(), natural jitter only
                 backend, w = [("cf_procpool", 2), ("mp_pool", 2)][ctx.shard % 2]
